@@ -321,7 +321,7 @@ Proof.
   - apply H.
   - apply ok_hijack.
   - apply H.
-  - destruct (c_nhosts c =? 0)%nat.
+  - destruct (negb (hosts_ok c s)).
     + assert (H1 : okA (emit OChoose ;; hijack src c 502 false)) by ok_auto. apply H1.
     + assert (H1 : okA (emit OChoose ;; upd (fun s0 => s0 <| retry := Some (budget src c) |> <| reserved := false |> <| has_upreq := true |>))) by ok_auto.
       apply H1.
@@ -357,23 +357,30 @@ Proof. unfold down_append_data. pose proof (ok_after_append false (c_snd_err_dat
 Lemma ok_down_append_trailers : okA (down_append_trailers src c).
 Proof. unfold down_append_trailers. pose proof (ok_after_append false (c_snd_err_trl c) true). ok_auto. Qed.
 
+Lemma ok_late_mark : okA late_mark.
+Proof. intros s. unfold late_mark. destruct (gave s); cbn [fst snd]; apply R_of_eq; reflexivity. Qed.
+Lemma ok_headers_tail e r : okA (headers_tail src c e r).
+Proof.
+  unfold headers_tail. pose proof ok_recv_finished. pose proof (ok_down_append_headers e r). pose proof ok_late_mark.
+  destruct (started_marked_first src); ok_auto.
+Qed.
+
 Lemma ok_on_upstream_headers r : okA (on_upstream_headers src c r).
 Proof.
   intros s. unfold on_upstream_headers.
   set (e := negb (r_data r) && negb (r_trailers r)).
-  assert (Htail : okA (upd (fun s0 => s0 <| resp_started := true |>) ;; (if e then recv_finished src c else ret) ;; down_append_headers src c e r)).
-  { pose proof ok_recv_finished. pose proof (ok_down_append_headers e r). ok_auto. }
+  pose proof (ok_headers_tail e r) as Htail.
   destruct (retry s); [|apply Htail].
   match goal with |- context [rs_retry src c (Some (r_code r)) RsEmpty ?x] => set (s' := x) end.
   assert (Hs : forall o t, R s' o t -> R s o t) by (intros o t H; exact H). apply Hs. clear Hs.
   pose proof (ok_rs_retry (Some (r_code r)) RsEmpty s') as H0. destruct (rs_retry src c (Some (r_code r)) RsEmpty s') as [[s1 o1] rs].
   cbn [fst snd] in H0. destruct rs.
   - pose proof (ok_setup_retry_act e s1) as H1. destruct (setup_retry_act src e s1) as [s2 o2]. cbn [fst snd] in *. eapply R_trans; eauto.
-  - assert (H1 : okA (rs_reset src c ;; upd (fun s0 => s0 <| resp_started := true |>) ;; (if e then recv_finished src c else ret) ;; down_append_headers src c e r)).
+  - assert (H1 : okA (rs_reset src c ;; headers_tail src c e r)).
     { pose proof ok_rs_reset. ok_auto. }
     specialize (H1 s1). match goal with |- context [let '(s2, o2) := ?t s1 in _] => destruct (t s1) as [s2 o2] end.
     cbn [fst snd] in *. eapply R_trans; eauto.
-  - assert (H1 : okA (rs_reset src c ;; upd (fun s0 => s0 <| resp_started := true |>) ;; (if e then recv_finished src c else ret) ;; down_append_headers src c e r)).
+  - assert (H1 : okA (rs_reset src c ;; headers_tail src c e r)).
     { pose proof ok_rs_reset. ok_auto. }
     specialize (H1 s1). match goal with |- context [let '(s2, o2) := ?t s1 in _] => destruct (t s1) as [s2 o2] end.
     cbn [fst snd] in *. eapply R_trans; eauto.
@@ -384,7 +391,15 @@ Proof. intros H. unfold upreq_guard. ok_auto. Qed.
 
 Lemma ok_up_filter_step s : R s (snd (up_filter_step src c s)) (fst (up_filter_step src c s)).
 Proof.
-  unfold up_filter_step. pose proof (ok_run_send s) as H0. destruct (run_send src c s) as [s1 o1]. cbn [fst snd] in H0.
+  unfold up_filter_step.
+  assert (Hsend : okA (run_send src c ;; upd (fun s0 => s0 <| rsp_filtered := true |> <| upreq_filtered := send_once_per_upreq src |>))).
+  { pose proof ok_run_send. ok_auto. }
+  assert (H0 : R s (snd (if send_once_per_upreq src && has_upreq s && upreq_filtered s then (s, [])
+                         else (run_send src c ;; upd (fun s0 => s0 <| rsp_filtered := true |> <| upreq_filtered := send_once_per_upreq src |>)) s))
+                   (fst (if send_once_per_upreq src && has_upreq s && upreq_filtered s then (s, [])
+                         else (run_send src c ;; upd (fun s0 => s0 <| rsp_filtered := true |> <| upreq_filtered := send_once_per_upreq src |>)) s))).
+  { destruct (send_once_per_upreq src && has_upreq s && upreq_filtered s); [apply R_refl|apply Hsend]. }
+  match type of H0 with R s (snd ?t) _ => destruct t as [s1 o1] end. cbn [fst snd] in H0.
   pose proof (ok_finish_phase PUpRecvHeader s1 o1 s H0) as H1. destruct (finish_phase src c PUpRecvHeader s1 o1) as [s2 o2].
   cbn [fst snd] in H1.
   destruct (phase_eqb (ph s2) PUpRecvHeader && negb (wdone s2) && negb (has_upreq s2)); cbn [fst snd]; auto.
